@@ -332,7 +332,7 @@ func (skiplist *skiplist) removeRange(min float64, max float64, limit int, mode 
 	return removed
 }
 
-// removeRangeByRank removes nodes in range [start, stop]
+// removeRangeByRank removes nodes in range [start, stop], ranks are 1-based
 func (skiplist *skiplist) removeRangeByRank(start int64, stop int64) (removed []*Item) {
 	var i int64 = 0 // rank of iterator
 	update := make([]*node, maxLevel)
@@ -348,6 +348,7 @@ func (skiplist *skiplist) removeRangeByRank(start int64, stop int64) (removed []
 		update[level] = node
 	}
 
+	i++
 	node = node.level[0].forward // first node in range
 
 	// remove nodes in range
